@@ -201,6 +201,42 @@ Proof.
   unfold Rbool_le. destruct (Rle_dec 0 (15 * eps)); [lia | lra].
 Qed.
 
+(* ------------------------------------------------------------------ reversal, conditionally on the panel formula
+   The recursion itself is orientation-correct: IF one panel changes sign when its endpoints are swapped (true once
+   quad_simpsons_mem uses (b - a) instead of |b - a| — the repair proposed for finding F5c) THEN the adaptive result is
+   negated by reversing the interval, for every integrand, tolerance and depth.  On the pinned tree the hypothesis is
+   false (Findings/C12_adaptive_reverse.v), which localises the defect to that one expression. *)
+Lemma stop_swap : forall eps a b, stop eps b a = stop eps a b.
+Proof. intros. unfold stop. rewrite (Rabs_minus_sym a b). reflexivity. Qed.
+
+Lemma copp_vadd : forall u v : C, vadd Rops (Copp u) (Copp v) = Copp (vadd Rops u v).
+Proof. intros [a b] [c d]. cbv [Copp vadd Rops fst snd]. f_equal; ring. Qed.
+
+Theorem asr_reverse_if_panel_antisymmetric :
+  (forall (f : R -> C) (a b : R), S3 f b a = Copp (S3 f a b)) ->
+  forall (f : R -> C) d (a b eps : R), asr f b a eps d = Copp (asr f a b eps d).
+Proof.
+  intros HS f. induction d as [|d IH]; intros a b eps.
+  - rewrite !asr_0. apply HS.
+  - rewrite !asr_S. rewrite stop_swap, HS. destruct (stop eps a b); [reflexivity|].
+    assert (Hd : delta f b a = Copp (delta f a b)).
+    { unfold delta. replace ((b + a) / 2) with ((a + b) / 2) by field.
+      rewrite (HS f a b), (HS f ((a + b) / 2) b), (HS f a ((a + b) / 2)).
+      destruct (S3 f a ((a + b) / 2)), (S3 f ((a + b) / 2) b), (S3 f a b). cbv [Copp vadd vsub Rops fst snd]. f_equal; ring. }
+    unfold accept, richardson. rewrite Hd, Cmod_opp.
+    replace ((b + a) / 2) with ((a + b) / 2) by field.
+    destruct (Rbool_le _ _).
+    + rewrite (HS f ((a + b) / 2) b), (HS f a ((a + b) / 2)).
+      destruct (S3 f a ((a + b) / 2)), (S3 f ((a + b) / 2) b), (delta f a b). cbv [Copp vadd vdiv Rops fst snd]. f_equal; field.
+    + rewrite (IH ((a + b) / 2) b), (IH a ((a + b) / 2)). rewrite copp_vadd.
+      f_equal. destruct (asr f a ((a + b) / 2) (eps / 2) d), (asr f ((a + b) / 2) b (eps / 2) d). cbv [vadd Rops fst snd]. f_equal; ring.
+Qed.
+
+Theorem simpson_adaptive_reverse_if_panel_antisymmetric :
+  (forall (f : R -> C) (a b : R), S3 f b a = Copp (S3 f a b)) ->
+  forall (f : R -> C) (a b eps : R) d, simpson_adaptive Rops f b a eps d = Copp (simpson_adaptive Rops f a b eps d).
+Proof. intros HS f a b eps d. rewrite !simpson_adaptive_asr. apply asr_reverse_if_panel_antisymmetric. exact HS. Qed.
+
 (* ------------------------------------------------------------------ statements in the form Props/C12.v exports *)
 Lemma simpson_adaptive_step : forall (f : R -> C) (a b eps : R) d,
   simpson_adaptive Rops f a b eps (S d) =
